@@ -21,17 +21,27 @@ def recase (mask s : Str) : Str :=
   if mask.isEmpty then s else
   (s.zipIdx).map fun (c, i) => if mask[i % mask.length]! == 'l' then c.toLower else c.toUpper
 
+/-- the DNA spelling of an RNA sequence that keeps the case of every letter (`U → T`, `u → t`) -/
+def uToTCase (s : Str) : Str := s.map fun c => if c = 'U' then 'T' else if c = 'u' then 't' else c
+
+/-- Independent reading of the other strand: reverse, and complement each letter as a SET of bases
+(Spec/Nucleotide: IUPAC code sets), `U` pairing with `A` as in RNA; `Z` (no base set) to the zero rune. -/
+def specCompl (c : Char) : Char := if c == 'U' then 'A' else if c == 'u' then 'a' else if c == 'Z' then Char.ofNat 0 else Spec.complCode c
+def specRc (s : Str) : Str := s.reverse.map specCompl
+
 /-- Abstract cases, each rendered into a `hash2` request (two Hash calls on related inputs):
   `rot s ty ds k`       : s vs rotl k s, circular
   `strand s ty circ`    : s vs revComp s, double stranded
   `case s mask ty circ ds` : s vs recase mask s
-  `rna s circ ds`       : s as RNA vs uToT(upper s) as DNA -/
+  `rna s circ ds`       : s as RNA vs uToT(upper s) as DNA
+  `rnacp s circ ds`     : s as RNA vs the case-preserving DNA spelling (U→T, u→t) as DNA -/
 def pair (f : List String) : Option ((Str × String × Bool × Bool) × (Str × String × Bool × Bool)) :=
   match f with
   | ["rot", s, ty, ds, k] => some ((s.toList, ty, true, b ds), (Spec.rotl (natOfStr k) s.toList, ty, true, b ds))
   | ["strand", s, ty, circ] => some ((s.toList, ty, b circ, true), (revComp s.toList, ty, b circ, true))
   | ["case", s, mask, ty, circ, ds] => some ((s.toList, ty, b circ, b ds), (recase mask.toList s.toList, ty, b circ, b ds))
   | ["rna", s, circ, ds] => some ((s.toList, "RNA", b circ, b ds), (uToT (upper s.toList), "DNA", b circ, b ds))
+  | ["rnacp", s, circ, ds] => some ((s.toList, "RNA", b circ, b ds), (uToTCase s.toList, "DNA", b circ, b ds))
   | _ => none
 
 def render (f : List String) : List String :=
@@ -47,9 +57,10 @@ def accepted (s : Str) (ty : String) (ds : Bool) : Bool :=
   if ty == "DNA" || ty == "RNA" then u.all nucleotideLetters.contains
   else if ty == "PROTEIN" then u.all proteinLetters.contains && !ds else false
 
-/-- strand clause domain: the 15 IUPAC codes (plus U under RNA) -/
+/-- strand clause domain: the normalised sequence is over the 15 IUPAC codes (so: the 15 codes in
+either case, plus U/u under RNA) — literally the hypothesis `Iupac15 (norm ty s)` of `hash_strand` -/
 def strandDomain (s : Str) (ty : String) : Bool :=
-  s.all fun c => Spec.isIupac15 c || (ty == "RNA" && c.toUpper == 'U')
+  (norm ty s).all fun c => Spec.upperCodes.contains c
 
 def judge (f out : List String) : Verdict :=
   match pair f with
@@ -62,15 +73,19 @@ def judge (f out : List String) : Verdict :=
       | ["ok", a1, a2, b1, b2] => (normOut (if a2 == "" then [a1] else [a1, a2]), normOut (if b2 == "" then [b1] else [b1, b2]))
       | _ => (["bad"], ["bad"])
     let kind := f.headD ""
-    let inDom := accepted s1 t1 d1 && (kind != "strand" || strandDomain s1 t1) && (kind != "rna" || true)
+    let isRna := kind == "rna" || kind == "rnacp"
+    let inDom := accepted s1 t1 d1 && (kind != "strand" || strandDomain s1 t1)
+    -- strand clause: the partner sent to the code (the model's `revComp`, i.e. the code's own complement
+    -- table) must be the biological other strand (independent code-set reading)
+    let partnerOk := kind != "strand" || s2 == specRc s1
     let j := match o1, o2 with
       | ["ok", h1], ["ok", h2] =>
-        if kind == "rna" then
+        if isRna then
           h1.length == h2.length && h1.length > 3 && h1.toList[3]! == 'R' && h2.toList[3]! == 'D' &&
             (h1.toList.set 3 'D') == h2.toList
-        else h1 == h2
+        else h1 == h2 && partnerOk
       | _, _ => false
-    let triv := s1 == s2 && kind != "rna"
+    let triv := s1 == s2 && !isRna
     { corr := o1 == m1 && o2 == m2, judge := if inDom then some j else none,
       cls := (if triv || s1.length < 2 then "triv:" else "") ++ kind ++ "/" ++ t1 ++ (if c1 then "C" else "L") ++ (if d1 then "D" else "S"),
       detail := if o1 == m1 && o2 == m2 && j then "" else lineOf (m1 ++ m2) }
